@@ -177,6 +177,56 @@ theorem linecol_spec (text : Str) (i : Nat) (hi : i < text.length) (hc : text[i]
     have : ch ≠ 10 := by intro h; subst h; exact hc hti
     simp [List.count_append, this]
 
+/-! ### where the pair exists, and what it is at a line break -/
+
+theorem linesFrom_length (text : Str) : ∀ (cl cc : Int), (linesFrom cl cc text).length = text.length := by
+  induction text with
+  | nil => intro cl cc; simp [linesFrom]
+  | cons c cs ih => intro cl cc; simp [linesFrom, ih]
+
+theorem colsFrom_length (text : Str) : ∀ (cl cc : Int), (colsFrom cl cc text).length = text.length := by
+  induction text with
+  | nil => intro cl cc; simp [colsFrom]
+  | cons c cs ih => intro cl cc; simp [colsFrom, ih]
+
+/-- **C09 (where line and column exist).** The translated `_get_line_and_column` yields a pair for
+    exactly the indices below the end of the text (line break or not); at the end of input and
+    beyond it is Python's `IndexError` (`none`) - which is why the emitted `_raise_error` functions
+    must, and do, test `pos >= len(text)` first and report `None, None` there. -/
+theorem linecol_defined_iff (text : Str) (i : Nat) :
+    (get_line_and_column text (i : Int)).isSome = true ↔ i < text.length := by
+  unfold get_line_and_column
+  simp only [map_index_eq, index_natCast]
+  by_cases hi : i < text.length
+  · rw [linesFrom_get _ _ _ _ hi, colsFrom_get _ _ _ _ hi]
+    simp [hi]
+  · have h1 : (linesFrom 1 0 text)[i]? = none := by
+      rw [List.getElem?_eq_none_iff, linesFrom_length]; omega
+    rw [h1]
+    simp [hi]
+
+/-- at a line break the table gives column 0 and the line that *follows* - the reason for which
+    the property excludes these indices -/
+theorem linecol_at_newline (text : Str) (i : Nat) (hc : text[i]? = some 10) :
+    get_line_and_column text (i : Int)
+      = some ((1 : Int) + ((text.take (i + 1)).count 10 : Nat), 0) := by
+  have hi : i < text.length := by
+    rcases Nat.lt_or_ge i text.length with h | h
+    · exact h
+    · rw [List.getElem?_eq_none_iff.mpr h] at hc; cases hc
+  unfold get_line_and_column
+  simp only [map_index_eq, index_natCast]
+  rw [linesFrom_get _ _ _ _ hi, colsFrom_get _ _ _ _ hi, colAt_zero_eq]
+  have : colNat text i = 0 := by
+    cases i with
+    | zero => simp [colNat, hc]
+    | succ j => simp [colNat, hc]
+  simp [this]
+
+example : get_line_and_column (lit "ab\ncd") 5 = none := by decide
+example : get_line_and_column (lit "ab\ncd") 4 = some (2, 2) := by decide
+example : get_line_and_column (lit "ab\ncd") 2 = some (2, 0) := by decide
+
 /-! ### excerpt and caret -/
 
 theorem caret_at_nat (k : Nat) : caret_at (k : Int) = [10] ++ List.replicate k 32 ++ [94] := by
